@@ -30,7 +30,7 @@ var c06 = core.Register(&core.Prop{
 	Shards: func(tier string) int { return pickTier(tier, 4, 16) },
 	Floors: func(c map[string]int64, tier string) []string {
 		var out []string
-		for _, k := range []string{"op:not", "op:notnot", "op:cond", "op:and", "op:or", "op:nn", "branch_effect_cases", "identity_checked", "nested_cases", "dead_branch_cases", "same_runner_repeats", "flat_cases"} {
+		for _, k := range []string{"op:not", "op:notnot", "op:cond", "op:and", "op:or", "op:nn", "branch_effect_cases", "identity_checked", "nested_cases", "dead_branch_cases", "same_runner_repeats", "flat_cases", "written_twice_cases"} {
 			if c[k] == 0 {
 				out = append(out, "coverage floor: no "+k)
 			}
@@ -103,7 +103,7 @@ var tLeaves = []tLeaf{
 	{"dtiny", true, false, true, false}, {"dbig", true, false, true, false},
 	{"''", false, false, false, false}, {"des", false, false, false, false}, {"'0'", true, false, false, false}, {"'a'", true, false, false, false}, {"' '", true, false, false, false}, {"'false'", true, false, false, false}, {"ds", true, false, false, false},
 	{"[]", true, false, false, false}, {"[0]", true, false, false, false}, {"darr", true, false, false, true}, {"dearr", true, false, false, true},
-	{"dm", true, false, false, true}, {"dem", true, false, false, true}, {"dt", true, false, false, true}, {"dfn", true, false, false, true}, {"dst", true, false, false, false}, {"dpst", true, false, false, true},
+	{"dm", true, false, false, true}, {"dem", true, false, false, true}, {"dt", true, false, false, true}, {"dzt", true, false, false, false}, {"fzt()", true, false, false, false}, {"dems", true, false, false, true}, {"dfn", true, false, false, true}, {"dst", true, false, false, false}, {"dpst", true, false, false, true},
 }
 
 type tStruct struct{ A int }
@@ -112,7 +112,7 @@ func c06Data(log *[]string) map[string]interface{} {
 	return map[string]interface{}{
 		"dnilp": (*int)(nil), "dnil": nil, "dnd": (*decimal.Big)(nil), "fnd": func() (*decimal.Big, error) { return nil, nil }, "dz": 0, "df0": 0.0, "dnegz": math.Copysign(0, -1), "dnan": math.NaN(), "dinf": math.Inf(1), "dninf": math.Inf(-1),
 		"dtiny": decimal.New(1, 500), "dbig": decimal.New(7, -500), "di7": int64(7), "des": "", "ds": "str", "darr": []interface{}{1, "x"}, "dearr": []interface{}{}, "dm": map[string]interface{}{"k": 1}, "dem": map[string]interface{}{},
-		"dt": time.Unix(1700000000, 0).UTC(), "dfn": func() (int, error) { return 1, nil }, "dst": tStruct{3}, "dpst": &tStruct{4},
+		"dt": time.Unix(1700000000, 0).UTC(), "dzt": time.Time{}, "fzt": func() (time.Time, error) { return time.Time{}, nil }, "dems": []string{}, "dfn": func() (int, error) { return 1, nil }, "dst": tStruct{3}, "dpst": &tStruct{4},
 		"rec": func(tag string) (string, error) { *log = append(*log, tag); return tag, nil },
 	}
 }
@@ -273,6 +273,22 @@ func resolveIn(data map[string]interface{}, src string) (interface{}, error, boo
 	return v, rerr, p, pv
 }
 
+// resolveInOnce evaluates exactly once (for formulas whose host calls have effects).
+func resolveInOnce(data map[string]interface{}, src string) (interface{}, error, bool, interface{}) {
+	sc, err := hostParse([]byte(src), true)
+	if err != nil {
+		return nil, fmt.Errorf("parse: %w", err), false, nil
+	}
+	r := formula.NewRunner()
+	r.SetThis(data)
+	var v interface{}
+	var rerr error
+	ctx, release := hostCtx(src)
+	defer release()
+	p, pv := core.Call(func() { v, rerr = r.Resolve(ctx, sc.Expression) })
+	return v, rerr, p, pv
+}
+
 func samePointer(a, b interface{}) bool {
 	va, vb := reflect.ValueOf(a), reflect.ValueOf(b)
 	if !va.IsValid() || !vb.IsValid() || va.Kind() != vb.Kind() {
@@ -430,6 +446,43 @@ var c06Effects = core.Mon(c06, "single-branch", func(w *core.W, c *EffectCase) {
 	}
 	if len(traces) == 0 {
 		w.Violation("single-branch", "C06/selected-branch-not-evaluated", c, "branch "+sel+" evaluated", traces, src)
+	}
+})
+
+// TwiceCase: the condition and the selected branch are spelled alike but are two evaluations: an impure call standing in
+// both places runs twice, and the value of the conditional is what the SECOND run returned.
+type TwiceCase struct {
+	Src     string `json:"src"`
+	WantLog string `json:"want_log"`
+	Want    string `json:"want"`
+}
+
+var twiceCases = []TwiceCase{
+	{"next() ? next() : 0", "", "2"}, {"next() ? next() : next()", "", "2"}, {"rec('c') ? rec('c') : rec('e')", "c c", "\"c\""}, {"(rec('c')) ? rec('c') : 0", "c c", "\"c\""},
+	{"[next(), next(), next()]", "", "[1, 2, 3]"}, {"next() + next() * 10", "", "21"}, {"next() == next()", "", "false"}, {"next() ? [next(), next()] : 0", "", "[2, 3]"},
+	{"bump(1) ? bump(1) : bump(1)", "", "2"}, {"!next() ? next() : next() + 10", "", "12"}, {"rec('') ? rec('') : rec('e')", " e", "\"e\""}, {"(next(), next()) ? next() : 0", "", "3"},
+	{"m.f() ? m.f() : 0", "", "2"}, {"next() ? (next() ? next() : 0) : 0", "", "3"},
+}
+
+var c06Twice = core.Mon(c06, "evaluated-as-often-as-written", func(w *core.W, c *TwiceCase) {
+	var log []string
+	data := c06Data(&log)
+	n := 0
+	counter := func() (int, error) { n++; return n, nil }
+	data["next"] = counter
+	data["bump"] = func(by int) (int, error) { n += by; return n, nil }
+	data["m"] = map[string]interface{}{"f": counter}
+	v, err, panicked, pv := resolveInOnce(data, c.Src)
+	w.Eval(1)
+	w.Count("written_twice_cases")
+	w.Nontrivial("twice:" + c.Src)
+	if panicked || err != nil {
+		w.Violation("evaluated-as-often-as-written", "C06/error", c, c.Want, fmt.Sprint(pv, err), c.Src)
+		return
+	}
+	if got := renderPlain(v); got != c.Want || (c.WantLog != "" && strings.Join(log, " ") != c.WantLog) {
+		w.Violation("evaluated-as-often-as-written", "C06/subexpression-not-evaluated-where-written", c, c.Want+" log ["+c.WantLog+"]", got+" log ["+strings.Join(log, " ")+"]",
+			c.Src+": every written occurrence of a call is an evaluation of its own; the conditional yields its selected branch's value")
 	}
 })
 
@@ -643,6 +696,11 @@ func runC06(w *core.W) {
 		w.Count("nested_cases")
 		if i%1501 == 0 {
 			w.Sample("nested", t.Src())
+		}
+	}
+	for i := range twiceCases {
+		if w.Mine(i) {
+			c06Twice(w, &twiceCases[i])
 		}
 	}
 	// the unselected branch may be anything, even something that cannot be evaluated
